@@ -441,6 +441,7 @@ type UnaryExpression struct {
 
 func (ue *UnaryExpression) WriteTo(cw *CodeWriter) {
 	cw.WriteLeadingComments(ue.Token.LeadingComments)
+	cw.avoidFusion(ue.Operator)
 	cw.AddMapping(ue.Token.Start)
 	cw.WriteString(ue.Operator)
 	// Right side needs parens if its precedence is lower than unary
